@@ -16,7 +16,7 @@ struct is_pair<std::pair<A, B> > : std::true_type {};
 
 // argument used for emplace-style calls: an int for scalar-constructible elements, a prvalue T for pairs
 inline auto emplace_arg(int x) {
-  if constexpr (is_pair<T>::value) return E::make(x);
+  if constexpr (is_pair<T>::value || std::is_same<T, signed char>::value) return E::make(x);  // types whose value mapping is not the identity
   else return x;
 }
 
